@@ -17,11 +17,11 @@ def register(claim, not_yet):
     claim('C02',
           'Proved for every filter length L >= 2, every signal and every commutative ring: if the bank satisfies the finite polyphase biorthogonality conditions PRBank, then synthesis(analysis(x)) '
           'returns every sample of x for ANY extension of the signal (pr_any_extension), hence in modes zero/symmetric/reflect/periodic (pr_padded) and for the models of afb1d/sfb1d themselves '
-          '(impl_pr_padded: never raises, returns x); the un-pad length rule (N or N+1 samples); both directions refine the PyWavelets formulas (C01/C10). PRBank is a hypothesis about the filter '
-          'values: it is measured on all 106 wavelets by the check (float residual, dmey reported), not proved per wavelet. Periodization PR, the 2-D/J-level lifting and the float tolerance are '
+          '(impl_pr_padded: never raises, returns x), in periodization mode for every length, odd included (pr_periodization; impl_pr_periodization for the code path when L <= N + N%2); the un-pad length rule (N or N+1 samples); both directions refine the PyWavelets formulas (C01/C10). PRBank is a hypothesis about the filter '
+          'values: it is measured on all 106 wavelets by the check (float residual, dmey reported), not proved per wavelet. The 2-D/J-level lifting and the float tolerance are '
           'decided by inverse(forward(x)) on the real modules for random wavelets out of all 106, all modes, odd sizes, with PyWavelets own reconstruction error as yardstick (dmey clause).' + TIE + BRK,
           'Lean 4 theorems (general perfect reconstruction from PRBank for every extension, refinement both ways, un-pad rule) + exact correspondence + round-trip oracle', 'DESIGN.md §4 C02',
-          'periodization PR and PRBank of the shipped float tables are measured, not proved: partial.')
+          'PRBank of the float wavelet tables and the 2-D/J-level composition are measured, not proved: partial.')
     claim('C03',
           'Proved: the level-1 filter colfilter(X, prep_filt(h)) equals the reference convolution with h on the half-sample symmetric extension for every filter and column length; the stack/view '
           'interleaving puts tree a / tree b on even / odd rows; coldfilt raises exactly when the length is not a positive multiple of 4. The quarter-shift filters, q2c orientation order and the '
@@ -78,10 +78,14 @@ def register(claim, not_yet):
           'Checked on the real code against pywt per-axis wavelets, the functional afb2d, and ordered pairs of distinct named wavelets.' + TIE + BRK,
           'Lean 4 per-axis theorem through the positional AFB2D/SFB2D call + exact correspondence + per-axis pywt oracle', 'DESIGN.md §4 C14')
     claim('C17',
-          'Proved: in C17 regime (even N >= L) the code periodization branch is the circular two-band bank; every two-tap orthonormal bank preserves energy exactly for every even length; '
-          'correlation/transposed-convolution adjointness. The general orthonormal length-L statement (isometry, inverse = transpose = backward) is staged and is decided on the real code by the '
-          'operator oracle (A^T A = I, energy, backprop == inverse) for all haar/db/sym/coif wavelets and exactly on integers for synthesis(reversed filters) == analysis^T.' + TIE + BRK,
-          'Lean 4 theorems (circular refinement, two-tap isometry, adjoint core) + exact correspondence + operator oracle', 'DESIGN.md §4 C17', 'general-L isometry is oracle-decided: partial.')
+          'Proved for every even filter length L >= 2, every even signal length N >= 2 (N < L included) and every commutative ring, on PyWavelets periodization formulas: the synthesis with the reversed '
+          'analysis filters is the transpose of the analysis for ALL filter values (per_synthesis_is_transpose); for every orthonormal bank (PRBank with g = reverse(h)) the analysis is an isometry, '
+          'energy(lo) + energy(hi) = energy(x) (isometry), and synthesis(analysis(x)) = x (C02.pr_periodization_even). In the C17 regime (even N >= L) the models of afb1d / sfb1d — the code paths, '
+          'tied by the correspondence — equal those formulas, so the same three statements hold for them (impl_isometry, impl_transpose, C02.impl_pr_periodization). Orthonormality of the shipped '
+          'wavelet values is a hypothesis: measured on all haar/db/sym/coif wavelets by the operator oracle (A^T A = I, energy, backprop == inverse) and exactly on integers for '
+          'synthesis(reversed filters) == analysis^T.' + TIE + BRK,
+          'Lean 4 theorems (circular refinement, transpose, general isometry, PR) + exact correspondence + operator oracle', 'DESIGN.md §4 C17',
+          'orthonormality of the float wavelet tables is measured, not proved: partial.')
     claim('C18',
           'Every array of every shipped npz table is regenerated into Lean as exact dyadic rationals on every run and every identity is decided by the kernel (decide +kernel): level-1 filters '
           'symmetric and odd, h0o*g0o+h1o*g1o = delta to 2^-40, q-shift filters orthonormal to 2^-40 (qshift_32: 2^-28), tree b = reverse(tree a) and g = reverse(h) exactly, tree-order signs, '
